@@ -28,6 +28,7 @@
 #include <filesystem>
 #include <memory>
 #include <optional>
+#include <sys/wait.h>
 
 namespace fs = std::filesystem;
 using vh::Rng;
@@ -107,7 +108,7 @@ static std::string fieldText(float v) {
     const bool neg = s[0] == '-';
     if (neg) s = s.substr(1);
     const int e = atoi(s.substr(10).c_str()) + 1;
-    char eb[8];
+    char eb[16];
     snprintf(eb, sizeof eb, "%+03i", e);
     return std::string(neg ? "-" : "") + "0." + s.substr(0, 1) + s.substr(2, 7) + "E" + eb;
 }
@@ -349,6 +350,7 @@ struct Monitor {
     vh::Reporter& rep;
     std::string caseText;
     std::string ctx;      // context of the observation, part of every key: ":restart", ":layout-differs", ...
+    bool ministepIdsKnown = true;
     long mismatches = 0;
 
     void viol(const std::string& key, const std::string& what, const std::string& detail) {
@@ -424,35 +426,41 @@ static std::vector<std::string> pickKeys(Rng& r, const Chain& c, bool all) {
 
 static Opm::time_point tp_of(int64_t epochSec) { return Opm::TimeService::from_time_t((std::time_t)epochSec); }
 
-// checks that do not depend on the loading path; R is ESmry or ExtESmry
+// number of ministeps and the set of lookup keys; R is ESmry or ExtESmry
 template <class R>
-static void checkFrame(Monitor& m, const std::string& reader, R& e, const Chain& c) {
+static bool checkStructure(Monitor& m, const std::string& reader, R& e, const Chain& c) {
     const std::string& sfx = m.ctx;
-    const RunDef& top = c.top();
     m.rep.count("frame_checks:" + reader);
     if ((size_t)e.numberOfTimeSteps() != c.steps.size()) {
         std::ostringstream o;
         o << reader << ": numberOfTimeSteps() = " << e.numberOfTimeSteps() << ", ministeps to be seen: " << c.steps.size();
         m.viol("nsteps:" + reader + sfx, o.str(), "");
-        return;
+        return false;   // everything else would only repeat this
     }
-    {
-        std::vector<std::string> got = e.keywordList();
-        std::sort(got.begin(), got.end());
-        if (got != c.keys) {
-            std::vector<std::string> missing, extra;
-            std::set_difference(c.keys.begin(), c.keys.end(), got.begin(), got.end(), std::back_inserter(missing));
-            std::set_difference(got.begin(), got.end(), c.keys.begin(), c.keys.end(), std::back_inserter(extra));
-            std::ostringstream o;
-            o << reader << ": key list differs from the vectors written: " << missing.size() << " missing, " << extra.size() << " unexpected;";
-            for (size_t i = 0; i < missing.size() && i < 4; ++i) o << " missing '" << missing[i] << "'";
-            for (size_t i = 0; i < extra.size() && i < 4; ++i) o << " unexpected '" << extra[i] << "'";
-            m.viol("keys:" + reader + sfx, o.str(), "");
-            return;
-        }
-        if ((size_t)e.numberOfVectors() != c.keys.size())
-            m.viol("nvectors:" + reader + sfx, reader + ": numberOfVectors() = " + std::to_string(e.numberOfVectors()) + " but " + std::to_string(c.keys.size()) + " addressable vectors were written", "");
+    std::vector<std::string> got = e.keywordList();
+    std::sort(got.begin(), got.end());
+    if (got != c.keys) {
+        std::vector<std::string> missing, extra;
+        std::set_difference(c.keys.begin(), c.keys.end(), got.begin(), got.end(), std::back_inserter(missing));
+        std::set_difference(got.begin(), got.end(), c.keys.begin(), c.keys.end(), std::back_inserter(extra));
+        std::ostringstream o;
+        o << reader << ": key list differs from the vectors written: " << missing.size() << " missing, " << extra.size() << " unexpected;";
+        for (size_t i = 0; i < missing.size() && i < 4; ++i) o << " missing '" << missing[i] << "'";
+        for (size_t i = 0; i < extra.size() && i < 4; ++i) o << " unexpected '" << extra[i] << "'";
+        m.viol("keys:" + reader + sfx, o.str(), "");
+        return false;
     }
+    if ((size_t)e.numberOfVectors() != c.keys.size())
+        m.viol("nvectors:" + reader + sfx, reader + ": numberOfVectors() = " + std::to_string(e.numberOfVectors()) + " but " + std::to_string(c.keys.size()) + " addressable vectors were written", "");
+    return true;
+}
+
+// units, start date, report step positions, time axis; R is ESmry or ExtESmry
+template <class R>
+static bool checkFrame(Monitor& m, const std::string& reader, R& e, const Chain& c, bool structureDone = false) {
+    const std::string& sfx = m.ctx;
+    const RunDef& top = c.top();
+    if (!structureDone && !checkStructure(m, reader, e, c)) return false;
     for (const auto& k : c.keys) {
         const auto& sl = c.slot.at(k);
         // unit as written by the run that is opened (base runs carry the same unit when they have the vector)
@@ -479,7 +487,12 @@ static void checkFrame(Monitor& m, const std::string& reader, R& e, const Chain&
     }
     // report step positions: value at the last ministep of every report step
     {
-        const std::string& k = c.keys[c.keys.size() / 2];
+        // a vector that every run of the chain has (series of other vectors are judged in series())
+        std::string k = "TIME";
+        for (size_t q = c.keys.size() / 2; q < c.keys.size(); ++q) {
+            const auto& sl = c.slot.at(c.keys[q]);
+            if (std::all_of(sl.begin(), sl.end(), [](int x) { return x >= 0; })) { k = c.keys[q]; break; }
+        }
         const auto full = e.get(k);   // copy: ExtESmry::get returns a reference into a container that may grow
         const auto at = e.get_at_rstep(k);
         bool ok = at.size() == c.rstep.size() && full.size() == c.steps.size();
@@ -515,6 +528,7 @@ static void checkFrame(Monitor& m, const std::string& reader, R& e, const Chain&
         }
         m.rep.count("dates_compared", (long)d.size());
     }
+    return true;
 }
 
 static void checkESmryOnly(Monitor& m, const std::string& reader, ESmry& e, const Chain& c) {
@@ -552,8 +566,172 @@ static void checkESmryOnly(Monitor& m, const std::string& reader, ESmry& e, cons
         if (!threw) m.viol("rstep-index-range:" + reader + sfx, reader + ": report step " + std::to_string(c.rstep.size() + 1) + " accepted although only " + std::to_string(c.rstep.size()) + " were written", "");
     }
     const bool av = e.all_steps_available();
-    if (av != c.allStepsAvailable)
+    if (m.ministepIdsKnown && av != c.allStepsAvailable)
         m.viol("ministep-ids:" + reader + sfx, reader + ": all_steps_available() = " + std::to_string(av) + " but the MINISTEP ids written " + (c.allStepsAvailable ? "are consecutive" : "have gaps"), "");
+}
+
+// ---------------------------------------------------------------------------------------------
+// reading a written chain back through every reader
+// ---------------------------------------------------------------------------------------------
+struct ExamineOpts {
+    int layoutClass = 0;          // vector layout of the runs of a chain: 0 same, 1 permuted, 2 vectors added/removed
+    bool tailName = false;        // a base run's separate files can be mistaken for the opened run's (name is a tail of the other)
+    bool allKeys = true;          // direct-seek lists hold every vector / a random subset around the block boundaries
+    bool skipFmtSeek = false, noFork = false;
+    bool directEsmry = false;     // the writer itself produced <run>.ESMRY for every run: read those instead of converting
+    bool ministepIdsKnown = true; // MINISTEP ids in RunDef are what was written (false: chosen by the writer, not compared)
+};
+
+// returns true when every reader path ran to its end
+static bool examine(vh::Reporter& rep, Rng& rng, Monitor& m, const std::vector<const RunDef*>& all, const ExamineOpts& o) {
+    const int depth = (int)all.size() - 1;
+    m.ministepIdsKnown = o.ministepIdsKnown;
+    const Chain own = makeChain({all.back()});
+    const Chain full = makeChain(all);
+    const RunDef& top = *all.back();
+    const auto ctxOf = [&](bool withBase) {
+        std::string c;
+        if (withBase) c = std::string(":restart") + (o.layoutClass == 1 ? ":layout-permuted" : o.layoutClass == 2 ? ":layout-differs" : "");
+        if (o.tailName) c += ":tail-name";
+        return c;
+    };
+    int sectionsDone = 0;
+    const auto section = [&](const std::string& what, bool withBase, auto&& body) {
+        m.ctx = ctxOf(withBase);
+        const auto guarded = [&] {
+            try {
+                body();
+                return true;
+            } catch (const std::exception& ex) {
+                const std::string msg = ex.what();
+                m.viol("reader-exception:" + what + m.ctx, what + " refused files written by the library's writers: " + msg.substr(0, 300), "");
+                return false;
+            }
+        };
+        // Opening a run together with base runs whose vector layout differs is known to index out of bounds in the ESmry
+        // constructor (6.x of the report): such sections run in a child process so that the death of the reader is an
+        // observation with a stable key and the remaining sections and cases are still examined.
+        const bool isolate = withBase && o.layoutClass != 0 && !o.noFork;
+        if (!isolate) {
+            if (guarded()) ++sectionsDone;
+            return;
+        }
+        fflush(stdout);
+        fflush(stderr);
+        const pid_t pid = fork();
+        if (pid == 0) {
+            const long before = rep.violations;
+            const bool ok = guarded();
+            fflush(stdout);
+            _exit((int)std::min(100L, rep.violations - before) + (ok ? 0 : 128));
+        }
+        int status = 0;
+        if (pid < 0 || waitpid(pid, &status, 0) < 0) { if (guarded()) ++sectionsDone; return; }
+        if (WIFSIGNALED(status)) {
+            m.viol("reader-crash:" + what + m.ctx, what + " died with signal " + std::to_string(WTERMSIG(status)) + " (" + strsignal(WTERMSIG(status)) + ") on files written by the library's writers", "");
+        } else {
+            const int code = WEXITSTATUS(status);
+            rep.violations += code & 127;   // witnesses were written by the child under these numbers
+            m.mismatches += code & 127;
+            if (!(code & 128)) ++sectionsDone;
+            rep.count("sections_run_in_child_process");
+        }
+    };
+    // ---- (1) whole-file loading ----------------------------------------------------------
+    for (int pass = 0; pass < (depth > 0 ? 2 : 1); ++pass) {
+        const bool withBase = depth > 0 && pass == 0;
+        const Chain& c = withBase ? full : own;
+        const std::string reader = "ESmry.loadData()";
+        rep.cover("reader", reader + (withBase ? "+base" : ""));
+        section(reader, withBase, [&] {
+            ESmry e(top.smspecPath(), withBase);
+            e.loadData();
+            if (!checkFrame(m, reader, e, c)) return;
+            checkESmryOnly(m, reader, e, c);
+            m.series(reader, c, c.keys, [&](const std::string& k) -> const std::vector<float>& { return e.get(k); }, false);
+        });
+    }
+    // ---- (2) conversion to ESMRY (or the ESMRY file the writer produced itself) and the ESMRY reader ---------------
+    {
+        const std::string reader = o.directEsmry ? "ExtESmry(written)" : "ExtESmry(converted)";
+        const std::string esmry = top.dir + "/" + top.name + ".ESMRY";
+        bool converted = o.directEsmry;
+        if (o.directEsmry) ++sectionsDone;
+        else section("make_esmry_file", false, [&] {
+            for (auto* r : all) {
+                ESmry e(r->smspecPath(), false);
+                if (!e.make_esmry_file()) m.viol("make_esmry_file-refused" + m.ctx, "make_esmry_file() returned false although no ESMRY file existed for " + r->name, "");
+            }
+            converted = true;
+        });
+        rep.cover("reader", reader);
+        if (converted) section(reader, false, [&] {
+            ExtESmry x(esmry, false);
+            const unsigned how = (unsigned)rng.below(3);
+            const auto sel = pickKeys(rng, own, o.allKeys);
+            if (how == 0) x.loadData();
+            else if (how == 1) x.loadData(sel);
+            rep.cover("ExtESmry_load", how == 0 ? "loadData()" : how == 1 ? "loadData(list)" : "lazy get()");
+            if (!checkFrame(m, reader, x, own)) return;
+            if (m.ministepIdsKnown && x.all_steps_available() != own.allStepsAvailable)
+                m.viol("ministep-ids:" + reader + m.ctx, reader + ": all_steps_available() = " + std::to_string(!own.allStepsAvailable) + " but the MINISTEP ids written " + (own.allStepsAvailable ? "are consecutive" : "have gaps"), "");
+            m.series(reader, own, how == 0 ? own.keys : sel, [&](const std::string& k) -> const std::vector<float>& { return x.get(k); }, false);
+            // the file itself: RSTEP flags and TSTEP ids
+            EclFile f(esmry);
+            f.loadData();
+            const auto rs = f.get<int>("RSTEP");
+            const auto ts = f.get<int>("TSTEP");
+            std::vector<int> wantR(own.steps.size(), 0), wantT;
+            for (int i : own.rstep) wantR[i] = 1;
+            for (auto& s : own.steps) wantT.push_back(top.ministep[s.second]);
+            if (rs != wantR) m.viol("esmry-RSTEP" + m.ctx, "ESMRY file: RSTEP flags are not 1 exactly at the last ministep of every report step", "");
+            if (m.ministepIdsKnown && ts != wantT) m.viol("esmry-TSTEP" + m.ctx, "ESMRY file: TSTEP does not hold the MINISTEP ids written", "");
+        });
+        if (converted && depth > 0) {
+            rep.cover("reader", reader + "+base");
+            section(reader, true, [&] {
+                ExtESmry x(esmry, true);
+                if (!o.directEsmry && (size_t)x.numberOfTimeSteps() == own.steps.size() && own.steps.size() != full.steps.size()) {
+                    m.viol("esmry-conversion-drops-restart-link",
+                           "ExtESmry(loadBaseRunData=true) on ESMRY files converted from a restarted run and from its base run sees only the run's own " + std::to_string(own.steps.size()) +
+                               " ministeps, not the " + std::to_string(full.steps.size()) + " of base history + own steps (the converted file carries no RESTART/RSTNUM record)", "");
+                } else {
+                    x.loadData();
+                    if (checkFrame(m, reader, x, full)) m.series(reader, full, full.keys, [&](const std::string& k) -> const std::vector<float>& { return x.get(k); }, false);
+                }
+            });
+        }
+    }
+    // ---- (3) direct seek per element: loadData(list) and lazy get(); last, because the formatted branch is the one
+    //          known to read past its buffer (a sanitizer build dies here) -------------------------------------------
+    for (int pass = 0; pass < (depth > 0 ? 2 : 1); ++pass) {
+        const bool withBase = depth > 0 && pass == 0;
+        const Chain& c = withBase ? full : own;
+        bool anyFormatted = false;
+        for (auto* r : c.runs) if (r->fmt) anyFormatted = true;
+        if (anyFormatted && o.skipFmtSeek) { rep.count("skipped_formatted_seek"); ++sectionsDone; continue; }
+        const std::string reader = "ESmry.loadData(list)";
+        rep.cover("reader", reader + (withBase ? "+base" : ""));
+        section(reader, withBase, [&] {
+            ESmry e(top.smspecPath(), withBase);
+            const auto sel = pickKeys(rng, c, o.allKeys);
+            const unsigned how = (unsigned)rng.below(4);
+            rep.cover("ESmry_seek", how == 0 ? "one list" : how == 1 ? "two lists" : how == 2 ? "lazy get()" : "list then loadData()");
+            if (how == 0 || how == 3) e.loadData(sel);
+            else if (how == 1) {
+                std::vector<std::string> a(sel.begin(), sel.begin() + sel.size() / 2), b(sel.begin() + sel.size() / 3, sel.end());   // overlapping
+                e.loadData(a);
+                e.loadData(b);
+            }
+            if (how == 3) e.loadData();   // vectors already loaded must not be loaded a second time
+            if (!checkStructure(m, reader, e, c)) return;
+            const long before = m.mismatches;
+            m.series(reader, c, how == 3 ? c.keys : sel, [&](const std::string& k) -> const std::vector<float>& { return e.get(k); }, true);
+            // TIME is part of every list: once it has compared equal, dates() cannot meet the over-read any more
+            if (m.mismatches == before) checkFrame(m, reader, e, c, true);
+        });
+    }
+    return sectionsDone == (depth > 0 ? 7 : 4);
 }
 
 // ---------------------------------------------------------------------------------------------
@@ -576,6 +754,7 @@ static std::string padDirTo(const std::string& dir, size_t totalLen, const std::
     return dir + "/" + std::string(totalLen - fixed, 'd');
 }
 
+#ifndef C10_NO_MAIN
 int main(int argc, char** argv) {
     vh::Args args = vh::parse_args(argc, argv);
     vh::Reporter rep(args, "C10");
@@ -584,6 +763,7 @@ int main(int argc, char** argv) {
     const long nEnum = (long)counts.size() * 4;
     const int maxNv = (int)args.geti("max_nv", 4500);
     const bool skipFmtSeek = args.geti("skip_fmt_seek", 0) != 0;   // own runs only: look beyond the known over-read
+    const bool noFork = args.geti("no_fork", 0) != 0;
 
     rep.run_cases([&](long idx, Rng& rng) {
         const std::string cdir = scratch + "/c" + std::to_string(idx);
@@ -633,7 +813,7 @@ int main(int argc, char** argv) {
             const unsigned pc = (unsigned)rng.below(100);
             style[level] = pc < 40 ? 0 : pc < 55 ? 1 : pc < 70 ? 2 : 3;
         }
-        for (int level = 1; level < depth; ++level) if (style[level + 1] == 3 && style[level] == 1) style[level] = 2;
+        for (int level = 1; level < depth; ++level) if (style[level + 1] == 3 && style[level] < 2) style[level] = 2;   // its directory gets re-homed
         for (int level = 0; level <= depth; ++level) {
             if (level == 0) dirs[0] = cdir;
             else if (style[level] == 0) dirs[level] = dirs[level - 1];
@@ -751,117 +931,13 @@ int main(int argc, char** argv) {
         bool tailName = false;
         if (nameSet == 4) for (int level = 0; level < depth; ++level) if (dirs[level] == dirs[depth] && !all[level]->unif && all[level]->fmt == top.fmt) tailName = true;
         if (tailName) rep.cover("restart_names", "base name ends in the run's name, same directory, separate files");
-        const auto ctxOf = [&](bool withBase) {
-            std::string c;
-            if (withBase) c = std::string(":restart") + (layoutClass == 1 ? ":layout-permuted" : layoutClass == 2 ? ":layout-differs" : "");
-            if (tailName) c += ":tail-name";
-            return c;
-        };
-        int sectionsDone = 0;
-        const auto section = [&](const std::string& what, bool withBase, auto&& body) {
-            m.ctx = ctxOf(withBase);
-            try {
-                body();
-                ++sectionsDone;
-            } catch (const std::exception& ex) {
-                const std::string msg = ex.what();
-                m.viol("reader-exception:" + what + m.ctx, what + " refused files written by the library's writers: " + msg.substr(0, 300), "");
-            }
-        };
-        // ---- (1) whole-file loading ----------------------------------------------------------
-        for (int pass = 0; pass < (depth > 0 ? 2 : 1); ++pass) {
-            const bool withBase = depth > 0 && pass == 0;
-            const Chain& c = withBase ? full : own;
-            const std::string reader = "ESmry.loadData()";
-            rep.cover("reader", reader + (withBase ? "+base" : ""));
-            section(reader, withBase, [&] {
-                ESmry e(top.smspecPath(), withBase);
-                e.loadData();
-                checkFrame(m, reader, e, c);
-                checkESmryOnly(m, reader, e, c);
-                m.series(reader, c, c.keys, [&](const std::string& k) -> const std::vector<float>& { return e.get(k); }, false);
-            });
-        }
-        // ---- (2) conversion to ESMRY and the ESMRY reader ------------------------------------
-        {
-            const std::string reader = "ExtESmry(converted)";
-            const std::string esmry = top.dir + "/" + top.name + ".ESMRY";
-            bool converted = false;
-            section("make_esmry_file", false, [&] {
-                for (auto* r : all) {
-                    ESmry e(r->smspecPath(), false);
-                    if (!e.make_esmry_file()) m.viol("make_esmry_file-refused" + m.ctx, "make_esmry_file() returned false although no ESMRY file existed for " + r->name, "");
-                }
-                converted = true;
-            });
-            rep.cover("reader", reader);
-            if (converted) section(reader, false, [&] {
-                ExtESmry x(esmry, false);
-                const unsigned how = (unsigned)rng.below(3);
-                const auto sel = pickKeys(rng, own, allKeys);
-                if (how == 0) x.loadData();
-                else if (how == 1) x.loadData(sel);
-                rep.cover("ExtESmry_load", how == 0 ? "loadData()" : how == 1 ? "loadData(list)" : "lazy get()");
-                checkFrame(m, reader, x, own);
-                if (x.all_steps_available() != own.allStepsAvailable)
-                    m.viol("ministep-ids:" + reader + m.ctx, reader + ": all_steps_available() = " + std::to_string(!own.allStepsAvailable) + " but the MINISTEP ids written " + (own.allStepsAvailable ? "are consecutive" : "have gaps"), "");
-                m.series(reader, own, how == 0 ? own.keys : sel, [&](const std::string& k) -> const std::vector<float>& { return x.get(k); }, false);
-                // the converted file itself: RSTEP flags and TSTEP ids
-                EclFile f(esmry);
-                f.loadData();
-                const auto rs = f.get<int>("RSTEP");
-                const auto ts = f.get<int>("TSTEP");
-                std::vector<int> wantR(own.steps.size(), 0), wantT;
-                for (int i : own.rstep) wantR[i] = 1;
-                for (auto& s : own.steps) wantT.push_back(top.ministep[s.second]);
-                if (rs != wantR) m.viol("esmry-RSTEP" + m.ctx, "converted ESMRY file: RSTEP flags are not 1 exactly at the last ministep of every report step", "");
-                if (ts != wantT) m.viol("esmry-TSTEP" + m.ctx, "converted ESMRY file: TSTEP does not hold the MINISTEP ids written", "");
-            });
-            if (converted && depth > 0) {
-                rep.cover("reader", reader + "+base");
-                section(reader, true, [&] {
-                    ExtESmry x(esmry, true);
-                    if ((size_t)x.numberOfTimeSteps() == own.steps.size() && own.steps.size() != full.steps.size()) {
-                        m.viol("esmry-conversion-drops-restart-link",
-                               "ExtESmry(loadBaseRunData=true) on ESMRY files converted from a restarted run and from its base run sees only the run's own " + std::to_string(own.steps.size()) +
-                                   " ministeps, not the " + std::to_string(full.steps.size()) + " of base history + own steps (the converted file carries no RESTART/RSTNUM record)", "");
-                    } else {
-                        x.loadData();
-                        checkFrame(m, reader, x, full);
-                        m.series(reader, full, full.keys, [&](const std::string& k) -> const std::vector<float>& { return x.get(k); }, false);
-                    }
-                });
-            }
-        }
-        // ---- (3) direct seek per element: loadData(list) and lazy get(); last, because the formatted branch is the one
-        //          known to read past its buffer (a sanitizer build dies here) -------------------------------------------
-        for (int pass = 0; pass < (depth > 0 ? 2 : 1); ++pass) {
-            const bool withBase = depth > 0 && pass == 0;
-            const Chain& c = withBase ? full : own;
-            bool anyFormatted = false;
-            for (auto* r : c.runs) if (r->fmt) anyFormatted = true;
-            if (anyFormatted && skipFmtSeek) { rep.count("skipped_formatted_seek"); ++sectionsDone; continue; }
-            const std::string reader = "ESmry.loadData(list)";
-            rep.cover("reader", reader + (withBase ? "+base" : ""));
-            section(reader, withBase, [&] {
-                ESmry e(top.smspecPath(), withBase);
-                const auto sel = pickKeys(rng, c, allKeys);
-                const unsigned how = (unsigned)rng.below(4);
-                rep.cover("ESmry_seek", how == 0 ? "one list" : how == 1 ? "two lists" : how == 2 ? "lazy get()" : "list then loadData()");
-                if (how == 0 || how == 3) e.loadData(sel);
-                else if (how == 1) {
-                    std::vector<std::string> a(sel.begin(), sel.begin() + sel.size() / 2), b(sel.begin() + sel.size() / 3, sel.end());   // overlapping
-                    e.loadData(a);
-                    e.loadData(b);
-                }
-                if (how == 3) e.loadData();   // vectors already loaded must not be loaded a second time
-                const long before = m.mismatches;
-                m.series(reader, c, how == 3 ? c.keys : sel, [&](const std::string& k) -> const std::vector<float>& { return e.get(k); }, true);
-                // TIME is part of every list: once it has compared equal, dates() cannot meet the over-read any more
-                if (m.mismatches == before) checkFrame(m, reader, e, c);
-            });
-        }
-        const bool finished = sectionsDone == (depth > 0 ? 7 : 4);
+        ExamineOpts opts;
+        opts.layoutClass = layoutClass;
+        opts.tailName = tailName;
+        opts.allKeys = allKeys;
+        opts.skipFmtSeek = skipFmtSeek;
+        opts.noFork = noFork;
+        const bool finished = examine(rep, rng, m, all, opts);
         rep.case_done(h, finished && full.steps.size() >= 2);
         std::error_code ec;
         fs::remove_all(cdir, ec);
@@ -869,3 +945,4 @@ int main(int argc, char** argv) {
     rep.finish();
     return 0;
 }
+#endif
